@@ -8,6 +8,7 @@ open C05Model
 open C05FragModel
 open C02AggModel
 open C02AggSencModel
+open C02AggCapModel
 
 let hexn s = n_of_hex s
 let hn n = hex_of_n n
@@ -223,13 +224,30 @@ let op_of_char c =
   | 's' -> OpSize | 'i' -> OpInfo | 'e' -> OpEncode | 'w' -> OpEncodeSW
   | _ -> failwith "bad op"
 
+(* sized writers: a = exactly Size(), b = Size()+1, c = Size()+64, d = 2*Size() (the harness takes Size() first) *)
+let sized_of_char c =
+  match c with
+  | 'a' -> Some (n_of_int 1, n_of_int 0) | 'b' -> Some (n_of_int 1, n_of_int 1)
+  | 'c' -> Some (n_of_int 1, n_of_int 64) | 'd' -> Some (n_of_int 2, n_of_int 0)
+  | _ -> None
+
+(* the harness does not allocate writers above this capacity: the operation is then Size() alone *)
+let cap_limit = 1 lsl 26
+
 (* one history, state by state *)
-let history (type s) (step : s -> aop -> s * aout) (dig : Buffer.t -> s -> unit) (lz : s -> bool) (s0 : s) (ops : string) : string =
+let history (type s) (step : s -> xop -> s * aout) (dig : Buffer.t -> s -> unit) (lz : s -> bool) (s0 : s) (ops : string) : string =
   let st = ref s0 in
   let obs = ref [] in
   (try
      S.iter (fun c ->
-         let (s', o) = step !st (op_of_char c) in
+         let (s', o) =
+           match sized_of_char c with
+           | None -> step !st (XOp (op_of_char c))
+           | Some (mul, add) ->
+             let (s1, o1) = step !st (XOp OpSize) in
+             (match o1 with
+              | OutSize n when (try int_of_n mul * int_of_n n + int_of_n add > cap_limit with _ -> true) -> (s1, o1)
+              | _ -> step !st (XSizedSW (mul, add))) in
          st := s';
          match o with
          | OutPanic -> obs := "P" :: !obs; raise Exit
@@ -274,10 +292,15 @@ let p_senc t : senc * string =
     let ivl = times ni (fun () -> bytes_of_hex (next t)) in
     let nl = nint t in
     let subs = times nl (fun () -> let n = nint t in p_subs t n) in
-    let raw = if nbool t then Some (bytes_of_hex (next t)) else None in
+    let np = nbool t in
+    let raw = bytes_of_hex (next t) in
     let rd = nn t in
-    ({ sn_version = v; sn_flags = f; sn_count = c; sn_ivsize = ivs; sn_ivs = ivl; sn_subs = subs; sn_raw = raw; sn_read = rd }, "-")
+    ({ sn_version = v; sn_flags = f; sn_count = c; sn_ivsize = ivs; sn_ivs = ivl; sn_subs = subs; sn_raw = raw; sn_np = np; sn_read = rd }, "-")
   | x -> failwith ("bad senc form " ^ x)
+
+(* the state a history step leaves: flags, and what the second decoding phase sets *)
+let senc_dig (s : senc) : string =
+  Printf.sprintf "%s.%s.%d.%d.%d" (hn s.sn_flags) (hn s.sn_ivsize) (L.length s.sn_ivs) (L.length s.sn_subs) (if s.sn_np then 1 else 0)
 
 let senc_history (s0 : senc) (ops : string) : string =
   let st = ref s0 in
@@ -295,9 +318,23 @@ let senc_history (s0 : senc) (ops : string) : string =
              (match r with Base.Ok b -> bytes_obs b | Base.Err -> "E" | _ -> "P")
            | _ -> failwith "bad op" in
          if o = "P" then (obs := "P" :: !obs; raise Exit)
-         else obs := (o ^ "/" ^ hn (!st).sn_flags) :: !obs) ops
+         else obs := (o ^ "/" ^ senc_dig !st) :: !obs) ops
    with Exit -> ());
   S.concat " " (L.rev !obs)
+
+(* a decoded senc: header size, header length, payload, then the second phase: x = none, else the perSampleIVSize
+   handed to ParseReadBox; observations: decode outcome, parse outcome + state, then the history *)
+let senc_decoded (hsize : coq_N) (hlen : coq_N) (payload : coq_N list) (piv : string) (ops : string) : string =
+  match senc_decode hsize hlen payload with
+  | Base.Ok s ->
+    let (s1, pobs) =
+      if piv = "x" then (s, "-")
+      else
+        let (s', r) = senc_parse s (hexn piv) in
+        (s', (match r with Base.Ok _ -> "o" | Base.Err -> "e" | _ -> "p") ^ "/" ^ senc_dig s') in
+    if S.length pobs > 0 && pobs.[0] = 'p' then "D " ^ "p"
+    else "D " ^ pobs ^ " " ^ senc_history s1 ops
+  | _ -> "E"
 
 let () =
   iter_lines (fun line ->
@@ -308,10 +345,10 @@ let () =
         let m =
           try
             (match kind with
-             | "frag" -> history afrag_step dig_frag lz_frag (p_frag t) ops
-             | "seg" -> history aseg_step dig_seg lz_seg (p_seg t) ops
-             | "init" -> history ainit_step (fun b _ -> Buffer.add_string b "I") (fun _ -> false) (p_init t) ops
-             | "file" -> history afile_step dig_file lz_file (p_file t) ops
+             | "frag" -> history afrag_xstep dig_frag lz_frag (p_frag t) ops
+             | "seg" -> history aseg_xstep dig_seg lz_seg (p_seg t) ops
+             | "init" -> history ainit_xstep (fun b _ -> Buffer.add_string b "I") (fun _ -> false) (p_init t) ops
+             | "file" -> history afile_xstep dig_file lz_file (p_file t) ops
              | _ -> failwith "bad kind")
           with Inconsistent w -> "INCONSISTENT " ^ w in
         if t.pos <> Array.length t.toks && not (S.length m > 12 && S.sub m 0 12 = "INCONSISTENT") then
@@ -319,6 +356,10 @@ let () =
         else if !bad_oboxes <> [] then
           Printf.printf "MISMATCH %s opaque box not stateless / Size() vs bytes written: %s\n" id (S.concat " " (L.rev !bad_oboxes))
         else if m = obs then Printf.printf "OK %s %s\n" id kind
+        else Printf.printf "MISMATCH %s model=%s\n" id m
+      | ["A"; id; "sencd"; hsize; hlen; payload; piv; ops; obs] ->
+        let m = senc_decoded (hexn hsize) (hexn hlen) (bytes_of_hex payload) piv ops in
+        if m = obs then Printf.printf "OK %s sencd\n" id
         else Printf.printf "MISMATCH %s model=%s\n" id m
       | ["A"; id; "senc"; toks; ops; addobs; obs] ->
         let t = { toks = Array.of_list (L.filter (fun x -> x <> "") (split_on ' ' toks)); pos = 0 } in
